@@ -1,10 +1,11 @@
 """C05 - indels in reference coordinates, invariant under both-gap columns."""
-from .. import varcommon
+from .. import samcommon, varcommon
 
 
 def run(ctx):
     ctx.rule = varcommon.RULE
     varcommon.run(ctx, ["C05-"])
+    samcommon.run_blocks(ctx, "C05-", 100 if ctx.quick else 1500)      # multi-record SAM blocks through sam variants
     ctx.assumptions = ["annotation consistent with the genome: every CDS ends in a stop codon of the reference, GenBank /translation and GFF phases are "
                        "computed from the same layout (GFF3 phase semantics)",
                        "reference rows use A/C/G/T; query symbols are upper-case IUPAC or '-'",
